@@ -6,6 +6,13 @@ HERE = os.path.dirname(os.path.dirname(os.path.abspath(__file__)))
 
 # id -> (category, technique, text, note)
 CLAIMED = {
+ "C16": ("other", "hidden-state analysis (must-write dataflow, J1 value-independence, J2 key-vs-cache guards, J3 save/restore) over solver classes, default-argument instance lint, Anderson reset typestate, dominance of fresh-solver calls (ast, CFG)",
+         "Decides for every call history at once the structural ways a result can depend on earlier calls: attributes written by a "
+         "solver's own call closure and read before being rewritten (memo under hasattr, coefficients rebound during a cycle), shared "
+         "default instances not refreshed before use, mutable default containers that are written, Anderson history not reset at "
+         "iteration 0, a re-used distance object solving with a stale factorisation. "
+         "Not decided: bit-identical results across interpreters where third-party caches (numba, pyamg) are involved.",
+         "Trusted: python ast parser; sa/cfg.py, sa/state.py (name-based aliasing; attributes reached through containers are rooted at self; five attributes of the distance objects are exempt by name with a stated reason and a dedicated structural check)."),
  "C03": ("other", "hidden-state analysis: interprocedural must-write dataflow over CFGs + key-vs-cache guard justification (ast)",
          "Decides the history clause for every call sequence at once: each read of an attribute that integrate() itself writes is "
          "either preceded by a write in the same call on every path, or every write-free path crosses a guard that compares the "
